@@ -117,6 +117,19 @@ fn stream_vectors(args: &Args, rep: &mut Report, tmp: &str) {
     for v in doc["vectors"].as_array().unwrap() {
         let fmt = v["fmt"].as_str().unwrap();
         let imp = v["import"].as_str().unwrap();
+        if v["origin"].as_str() == Some("edge") {
+            // strings no producer writes: outside the property's quantifier, observed and noted only
+            let ct = String::from_utf8(unhex(v["cands"][0]["ct"].as_str().unwrap())).unwrap();
+            let indep = v["cands"][0]["accept"].as_bool();
+            let ours = match ktry(imp) {
+                Ok(Ok(p)) => format!("{:?}", kverify(&p, &ct)),
+                Ok(Err(e)) => format!("import refused ({e:?})"),
+                Err(_) => "import panicked".into(),
+            };
+            rep.count("edge-observations");
+            rep.note(format!("edge (outside the quantifier) {fmt}: kanidm verify(right cleartext) = {ours}; independent side accepts = {indep:?}; import = {imp}"));
+            continue;
+        }
         let case = Case { stream: "vectors", fmt, import: Some(imp), db: None };
         rep.count(&format!("vectors:{fmt}"));
         let p = match ktry(imp) {
@@ -190,7 +203,7 @@ fn stream_vectors(args: &Args, rep: &mut Report, tmp: &str) {
 }
 
 fn stream_generated(args: &Args, rep: &mut Report, tmp: &str) {
-    let n = args.cases(24, 400);
+    let n = args.cases(24, 300);
     let mut items = vec![];
     let mut kept: Vec<(Password, String, String, Vec<(&'static str, String)>)> = vec![];
     for i in 0..n {
@@ -309,7 +322,7 @@ fn inproc_make(r: &mut Rng, ct: &str) -> (String, String, Box<dyn Fn(&[u8]) -> b
 }
 
 fn stream_inproc(args: &Args, rep: &mut Report) {
-    let n = args.cases(1500, 40_000);
+    let n = args.cases(1500, 25_000);
     for i in 0..n {
         let mut r = Rng::for_case(args.seed ^ 0x1b9, i);
         let ct = if i % 97 == 5 { let n = *r.pick(&[513usize, 600, 2000]); rand_text(&mut r, n, true) } else { rand_cleartext(&mut r) };
